@@ -413,6 +413,19 @@ class Ctx:
                     if n.get("else"):
                         walk(n["else"], conds + [(n["cond"], False)])
                     return
+                if n.get("k") == "block" and isinstance(n.get("stmts"), list):
+                    # statements in order: after `if c { return .. }` (no else, diverging body) the rest runs under !c
+                    cur = list(conds)
+                    for st in n["stmts"]:
+                        walk(st, cur)
+                        e_ = st.get("expr") if st.get("k") == "expr_stmt" else None
+                        if e_ and e_.get("k") == "if" and not e_.get("else") and e_["cond"].get("k") != "let_cond":
+                            body = e_["then"].get("stmts") or []
+                            last = body[-1] if body else None
+                            le = (last.get("expr") if last and last.get("k") == "expr_stmt" else None) or {}
+                            if le.get("k") in ("return", "break", "continue") or (le.get("k") == "macro" and le.get("name", "").split("::")[-1] in ("panic", "unreachable")):
+                                cur = cur + [(e_["cond"], False)]
+                    return
                 for v in n.values():
                     walk(v, conds)
             elif isinstance(n, list):
